@@ -32,6 +32,7 @@ ATTR = [
  ("fix: FileSource with Repeat::finite(0)", ["C16"]),
  ("fix: SigMFSource emitted the data with Repeat::finite(0)", ["C16", "C15"]),
  ("fix: derive(Block) sync mode did not compile", ["C19"]),
+ ("fix: Mode::Append failed when the file did not exist", ["C17"]),
 ]
 log = subprocess.run(["git", "-C", "/repo", "log", "--reverse", "--format=%h\t%s", "--grep", "^fix:"],
                      capture_output=True, text=True).stdout.strip().splitlines()
